@@ -374,9 +374,9 @@ pub open spec fn parts_of(s: Seq<ClaimableHTLC>) -> Seq<MppPart> { Seq::new(s.le
 //@ensures P C04 a-payment-with-an-unknown-even-custom-tlv-is-failed-back-instead-of-claimed-unless-the-caller-vouches-for-its-tlvs
     r <==> (!custom_tlvs_known && exists|k: int| 0 <= k < custom_tlvs@.len() && (#[trigger] custom_tlvs@[k]).0 % 2 == 0),
 //@mutant odd_rule_inverted
-    typ % 2 == 0
+    custom_tlvs.iter().any(|(typ, _)| typ % 2 == 0)
 //@with
-    typ % 2 == 1
+    custom_tlvs.iter().any(|(typ, _)| typ % 2 == 1)
 //@end
 
 // ---- the stateless invoice check: amount and expiry tests of inbound_payment::verify (deep R15 slice) ----
